@@ -1,9 +1,17 @@
 import TongoProofs.Lemmas.TonConnect
+import TongoGen.TonConnectMsg
+import TongoProofs.Lemmas.GenTiesWallet
+import TongoProofs.Lemmas.SigIdeal
+import TongoProofs.Lemmas.HashTree
 /-! Property C19 — TON Connect proofs are accepted only for the key controlling the address.
 
 Model: `TongoModel/TonConnect.lean`. `H` (SHA-256), `mac` (HMAC-SHA-256 under the server secret), `sign`/`verify`
-(Ed25519) are parameters; signature correctness is an explicit premise of `accept_honest`; unforgeability and
-collision-freedom are what the "binds" statements reduce to, never axioms. Property theorems only. -/
+(Ed25519) are parameters; signature correctness is an explicit premise of `accept_honest`; the NEGATIVE clauses (signed by
+another key; address / domain / timestamp / payload differ from what was signed; state init of another key) are proved
+under the ideal signature scheme `Sig.Ideal` (correct, unforgeable, binding — `Lemmas/SigIdeal.lean`) and `CollisionFree H`
+on the byte strings involved: local hypotheses, never axioms; the accept-all verifier does not satisfy them. The model
+hashes cells with `Cell.hashO`, Go's `Cell.Hash` on trees of level-0 non-pruned cells (C15 `hash_model_is_cell_hash`).
+Property theorems only. -/
 namespace Tongo.C19
 open Tongo Tongo.TonConnect Tongo.Wallet Tongo.Bits
 
@@ -39,6 +47,34 @@ theorem reject_payload_expired (mac : List UInt8 → List UInt8) (nowNs life : I
   constructor
   · intro h; simp [hl, hm, h]
   · intro h; simp [hl, hm, h]
+
+/-- the verdict `CheckProof` receives from its `checkPayload` callback when that callback is the server's own
+`CheckPayload` (the usual wiring: `srv.CheckProof(ctx, proof, srv.CheckPayload, …)`): true only for `(true, nil)` -/
+def payloadVerdict (mac : List UInt8 → List UInt8) (nowNs life : Int) (payload : List UInt8) : Bool :=
+  match checkPayload mac nowNs life payload with
+  | .ok true => true
+  | _ => false
+
+/-- Composition of the two previous facts with `CheckProof`: wired to the server's own `CheckPayload`, a proof whose
+payload was not MACed under the server's secret, or whose MACed time is older than the payload lifetime, is rejected
+with "failed to verify payload". (That nobody without the secret can produce a payload with a correct 16-byte truncated
+HMAC is the unforgeability of the MAC — an assumption, listed in props.) -/
+theorem reject_proof_with_bad_payload (mac : List UInt8 → List UInt8) (lifePayload : Int) (env : Env) (p : ProofIn)
+    (henv : env.payloadOk = payloadVerdict mac env.nowNs lifePayload p.payload) (bs : List UInt8)
+    (hd : hexDecode p.payload = some bs)
+    (hbad : bs.drop 16 ≠ (mac (bs.take 16)).take 16 ∨
+      (bs.length = 32 ∧ olderThan env.nowNs (i64OfNat (beNat ((bs.drop 8).take 8))) lifePayload = true)) :
+    checkProof H verify env p = .err "failed to verify payload" := by
+  apply reject_payload_refused
+  rw [henv]
+  unfold payloadVerdict
+  rcases hbad with hm | ⟨hl, ho⟩
+  · obtain ⟨e, he⟩ := reject_payload_forged mac env.nowNs lifePayload p.payload bs hd hm
+    rw [he]
+  · by_cases hm : bs.drop 16 = (mac (bs.take 16)).take 16
+    · rw [(reject_payload_expired mac env.nowNs lifePayload p.payload bs hd hl hm).1 ho]
+    · obtain ⟨e, he⟩ := reject_payload_forged mac env.nowNs lifePayload p.payload bs hd hm
+      rw [he]
 
 /-- The lifetime boundary is strict: for timestamps and lifetimes in the range where Go's time arithmetic does not
 wrap, "older than the lifetime" is `now − t·10⁹ > life·10⁹` in nanoseconds — one nanosecond past the lifetime is too
@@ -288,8 +324,13 @@ theorem parseStateInit_rejects (known : List (List UInt8 × Nat)) (c code data :
 
 /-! ### never a crash -/
 
-/-- `CheckProof` (with the repaired `ParseStateInit`) never panics, whatever the proof, the executor's answer and the
-callbacks' verdicts: the key handed to `ed25519.Verify` always has 32 bytes. -/
+/-- `CheckProof`'s OWN logic (with the repaired `ParseStateInit`) never panics, whatever the proof, the executor's answer
+and the callbacks' verdicts. Scope: the callees are represented by their RESULTS — `BocResult` (`boc.DeserializeBocBase64`:
+error or roots; that the BOC reader itself does not panic is C07/C08, not composed here), `Getter` (`abi.GetPublicKey`
+through the executor: failure or an integer), the two callbacks' verdicts — so a panic INSIDE a callee is outside this
+statement. Within `CheckProof` the only panic source is `ed25519.Verify` on a key that is not 32 bytes long, and the key
+handed to it always has 32 bytes (before the repair it could be nil: `check_total_false_before_fix`). A state init with
+a non-empty library dictionary is outside the modelled fragment (answered `err "unmodelled…"`, never generated). -/
 theorem check_total (env : Env) (p : ProofIn) : ∀ x, checkProof H verify env p ≠ .panic x := by
   intro x
   unfold checkProof
@@ -366,6 +407,49 @@ theorem check_total_false_before_fix :
     "ed25519: bad public key length", ?_⟩
   decide
 
+/-! ### the key from the get-method integer -/
+
+theorem beNat_replicate_zero (z : Nat) (l : List UInt8) : beNat (List.replicate z 0 ++ l) = beNat l := by
+  induction z with
+  | zero => rfl
+  | succ z ih => rw [List.replicate_succ, List.cons_append, beNat_zero_cons, ih]
+
+theorem leading_zeros_split : ∀ (pk : List UInt8), beNat pk ≠ 0 → ∃ z b t, pk = List.replicate z 0 ++ b :: t ∧ b ≠ 0
+  | [], h => absurd rfl h
+  | x :: xs, h => by
+    by_cases hx : x = 0
+    · subst hx
+      rw [beNat_zero_cons] at h
+      obtain ⟨z, b, t, he, hb⟩ := leading_zeros_split xs h
+      exact ⟨z + 1, b, t, by rw [he, List.replicate_succ, List.cons_append], hb⟩
+    · exact ⟨0, x, xs, rfl, hx⟩
+
+/-- The get-method returns the public key as a 256-bit integer; `getWalletPubKey` turns it back into 32 bytes by
+LEFT-padding the significant bytes (`big.Int.Bytes()` drops leading zero bytes). For every 32-byte key with at least
+24 significant bytes — in particular the 1-in-256 keys that start with a zero byte — the key comes back unchanged. -/
+theorem pubkey_from_int_roundtrip (pk : List UInt8) (hl : pk.length = 32) (hsig : 256 ^ 23 ≤ beNat pk) :
+    getWalletPubKey (.int (beNat pk : Nat)) = .ok pk := by
+  have hne : beNat pk ≠ 0 := by
+    have : 0 < 256 ^ 23 := by norm_num
+    omega
+  obtain ⟨z, b, t, he, hb⟩ := leading_zeros_split pk hne
+  have hval : beNat pk = beNat (b :: t) := by rw [he, beNat_replicate_zero]
+  have hnb : natBytes (beNat pk) = b :: t := by rw [hval]; exact natBytes_beNat_cons b t hb
+  have hlen : z + (t.length + 1) = 32 := by
+    have := congrArg List.length he
+    simpa [hl] using this.symm
+  have h24 : 24 ≤ t.length + 1 := by
+    have hlt := beNat_lt (b :: t)
+    rw [← hval, List.length_cons] at hlt
+    have : (256 : Nat) ^ 23 < 256 ^ (t.length + 1) := Nat.lt_of_le_of_lt hsig hlt
+    have := (Nat.pow_lt_pow_iff_right (by norm_num : 1 < 256)).mp this
+    omega
+  unfold getWalletPubKey
+  simp only [Int.natAbs_natCast, hnb, List.length_cons]
+  rw [if_neg (by omega)]
+  have : 32 - (t.length + 1) = z := by omega
+  rw [this, ← he]
+
 /-! ### what is signed -/
 
 /-- The byte string that is hashed and signed determines the workchain, the 32-byte address, the domain, the timestamp
@@ -416,6 +500,316 @@ theorem message_binds_digest (hlen : ∀ x, (H x).length = 32) (m m' : Parsed) (
   have h1 := cfOuter.pair h
   have h2 := List.append_cancel_left h1
   exact message_binds m m' ha ha' hd hd' hw hw' ht ht' (cfInner.pair h2)
+
+/-- the decoded message carries the proof's domain, timestamp and payload unchanged -/
+theorem convert_fields (p : ProofIn) (m : Parsed) (hc : convertTonProofMessage p = .ok m) :
+    m.domain = p.domain ∧ m.ts = p.ts ∧ m.payload = p.payload := by
+  unfold convertTonProofMessage at hc
+  split at hc
+  · split at hc
+    · cases hc
+    · split at hc
+      · cases hc
+      · split at hc
+        · cases hc
+        · simp only [Outcome.ok.injEq] at hc; subst hc; exact ⟨rfl, rfl, rfl⟩
+  · cases hc
+
+/-! ### only the key controlling the address — under the ideal signature scheme and a collision-free hash
+
+The negative clauses of the property. `Sig.Ideal sign verify pub` (`TongoProofs/Lemmas/SigIdeal.lean`: `SigCorrect`,
+`SigUnforgeable` — whatever verifies was produced by `sign` under a secret key of that public key —, `SigBinds` — a
+signature determines signer and digest) and `CollisionFree H` on the byte strings involved are LOCAL hypotheses, the
+named idealisations of DESIGN §5.3. The accept-all verifier does not satisfy them (`Sig.accept_all_violates`), a toy
+scheme does (`Sig.toy_ideal`; instantiated at the end of this file). -/
+
+/-- the fields of a signed message within the ranges of their Go types (`int32`, a 32-byte address, a domain shorter
+than 2³² bytes, `int64`) -/
+def ParsedWF (m : Parsed) : Prop :=
+  m.address.length = 32 ∧ m.domain.length < 4294967296 ∧ (-2147483648 ≤ m.workchain ∧ m.workchain < 2147483648) ∧
+    (-9223372036854775808 ≤ m.ts ∧ m.ts < 9223372036854775808)
+
+/-- An accepted proof passed every check: the payload and domain callbacks said yes, the proof is within its lifetime,
+the presented fields decode to `m`, the account id parses, the key `pk` is the one obtained for that account (get-method,
+or the state init that hashes to the address), and the scheme's verifier accepted `(pk, createMessage m, signature)`. -/
+theorem accepted_was_verified (env : Env) (p : ProofIn) (pk : List UInt8) (h : checkProof H verify env p = .ok pk) :
+    ∃ m wc acc sig, env.payloadOk = true ∧ env.domainOk = some true ∧ convertTonProofMessage p = .ok m ∧
+      olderThan env.nowNs m.ts env.lifeProof = false ∧ parseAccountID p.address = .ok (wc, acc) ∧ p.signature = some sig ∧
+      obtainKey (parseStateInit H env.known) H env acc p = .ok pk ∧ verify pk (createMessage H m) sig = true := by
+  unfold checkProof at h
+  rcases checkProofWith_shape H verify (parseStateInit H env.known) env p with ⟨e, he⟩ | ⟨m, wc, acc, hp, hc, ho, hd, ha, heq⟩
+  · rw [he] at h; cases h
+  · rw [heq] at h
+    have hsig : ∃ sig, p.signature = some sig := by
+      unfold convertTonProofMessage at hc
+      cases hs : p.signature with
+      | some sig => exact ⟨sig, rfl⟩
+      | none =>
+        exfalso
+        split at hc
+        · split at hc
+          · cases hc
+          · split at hc
+            · cases hc
+            · simp [hs] at hc
+        · cases hc
+    obtain ⟨sig, hsig⟩ := hsig
+    cases hk : obtainKey (parseStateInit H env.known) H env acc p with
+    | err e => simp [hk] at h
+    | panic x => simp [hk] at h
+    | ok k =>
+      simp only [hk, hsig, Option.getD_some] at h
+      unfold signatureVerify at h
+      by_cases hl : k.length ≠ 32
+      · simp [hl] at h
+      · simp only [hl, ↓reduceIte] at h
+        cases hv : verify k (createMessage H m) sig with
+        | false => simp [hv] at h
+        | true =>
+          simp only [hv, Outcome.ok.injEq] at h
+          subst h
+          exact ⟨m, wc, acc, sig, hp, hd, hc, ho, ha, hsig, hk, hv⟩
+
+/-- Hence (ideal unforgeability) whatever `CheckProof` accepts was signed by a secret key of the returned public key,
+over exactly the digest of the PRESENTED fields. -/
+theorem accepted_was_signed (sign : List UInt8 → List UInt8 → List UInt8) (pub : List UInt8 → List UInt8)
+    (hu : Sig.SigUnforgeable sign verify pub) (env : Env) (p : ProofIn) (pk : List UInt8)
+    (h : checkProof H verify env p = .ok pk) :
+    ∃ m sk, convertTonProofMessage p = .ok m ∧ pk = pub sk ∧ p.signature = some (sign sk (createMessage H m)) := by
+  obtain ⟨m, _, _, sig, _, _, hc, _, _, hsig, _, hv⟩ := accepted_was_verified H verify env p pk h
+  obtain ⟨sk, hpk, hs⟩ := hu pk _ sig hv
+  exact ⟨m, sk, hc, hpk, by rw [hsig, hs]⟩
+
+/-- The core of all the rejections: a proof whose signature was made with `sk0` over the fields `m0` is accepted only
+with `pub sk0` as the key controlling the account AND only if the presented fields ARE `m0` — workchain, address,
+domain, timestamp and payload. (Ideal signatures; `H` collision-free on the inner and outer byte strings of the two
+messages; presented address of 32 bytes — `convertTonProofMessage` does not check that, see `assumptions`.) -/
+theorem accepted_fields_are_signed (hlen : ∀ x, (H x).length = 32) (sign : List UInt8 → List UInt8 → List UInt8)
+    (pub : List UInt8 → List UInt8) (I : Sig.Ideal sign verify pub) (env : Env) (p : ProofIn) (pk : List UInt8)
+    (sk0 : List UInt8) (m0 : Parsed) (hsig : p.signature = some (sign sk0 (createMessage H m0))) (hw0 : ParsedWF m0)
+    (m : Parsed) (hc : convertTonProofMessage p = .ok m) (hw : ParsedWF m)
+    (cfOuter : CollisionFree H [[0xff, 0xff] ++ tonConnectPrefix ++ H (messageBytes m), [0xff, 0xff] ++ tonConnectPrefix ++ H (messageBytes m0)])
+    (cfInner : CollisionFree H [messageBytes m, messageBytes m0])
+    (h : checkProof H verify env p = .ok pk) : pk = pub sk0 ∧ m = m0 := by
+  obtain ⟨m', _, _, sig, _, _, hc', _, _, hsig', _, hv⟩ := accepted_was_verified H verify env p pk h
+  rw [hc] at hc'
+  simp only [Outcome.ok.injEq] at hc'
+  subst hc'
+  rw [hsig] at hsig'
+  simp only [Option.some.injEq] at hsig'
+  subst hsig'
+  have hd : ∀ x : Parsed, (createMessage H x).length = 32 := fun x => hlen _
+  obtain ⟨hpk, hdig⟩ := I.verify_sound sk0 pk _ _ (hd m0) (hd m) hv
+  exact ⟨hpk, message_binds_digest H hlen m m0 hw.1 hw0.1 hw.2.1 hw0.2.1 hw.2.2.1 hw0.2.2.1 hw.2.2.2 hw0.2.2.2 cfOuter cfInner hdig⟩
+
+/-- the answer of `CheckProof` is never a panic, so "not accepted" is "rejected with an error" -/
+theorem not_accepted_is_error (env : Env) (p : ProofIn) (h : ∀ pk, checkProof H verify env p ≠ .ok pk) :
+    ∃ e, checkProof H verify env p = .err e := by
+  cases hr : checkProof H verify env p with
+  | ok pk => exact absurd hr (h pk)
+  | err e => exact ⟨e, rfl⟩
+  | panic x => exact absurd hr (check_total H verify env p x)
+
+/-- **Signed by another key.** The key controlling the account (what the get-method returns, or the key in the state
+init that hashes to the address) is `k`; the proof's signature was made with a secret key `sk0` whose public key is not
+`k`: `CheckProof` rejects — whatever was signed, whatever the other fields. -/
+theorem reject_foreign_signer (hlen : ∀ x, (H x).length = 32) (sign : List UInt8 → List UInt8 → List UInt8)
+    (pub : List UInt8 → List UInt8) (I : Sig.Ideal sign verify pub) (env : Env) (p : ProofIn)
+    (sk0 : List UInt8) (d0 : List UInt8) (hd0 : d0.length = 32) (hsig : p.signature = some (sign sk0 d0))
+    (hkey : ∀ wc acc k, parseAccountID p.address = .ok (wc, acc) →
+      obtainKey (parseStateInit H env.known) H env acc p = .ok k → k ≠ pub sk0) :
+    ∃ e, checkProof H verify env p = .err e := by
+  apply not_accepted_is_error
+  intro pk h
+  obtain ⟨m, wc, acc, sig, _, _, _, _, ha, hsig', hk, hv⟩ := accepted_was_verified H verify env p pk h
+  rw [hsig] at hsig'
+  simp only [Option.some.injEq] at hsig'
+  subst hsig'
+  exact hkey wc acc pk ha hk (I.verify_sound sk0 pk _ _ hd0 (hlen _) hv).1
+
+/-- **Substituted field**, general form: the signature was made over `m0`; the proof presents fields that decode to
+something else: rejected. -/
+theorem reject_substituted_field (hlen : ∀ x, (H x).length = 32) (sign : List UInt8 → List UInt8 → List UInt8)
+    (pub : List UInt8 → List UInt8) (I : Sig.Ideal sign verify pub) (env : Env) (p : ProofIn)
+    (sk0 : List UInt8) (m0 : Parsed) (hsig : p.signature = some (sign sk0 (createMessage H m0))) (hw0 : ParsedWF m0)
+    (m : Parsed) (hc : convertTonProofMessage p = .ok m) (hw : ParsedWF m)
+    (cfOuter : CollisionFree H [[0xff, 0xff] ++ tonConnectPrefix ++ H (messageBytes m), [0xff, 0xff] ++ tonConnectPrefix ++ H (messageBytes m0)])
+    (cfInner : CollisionFree H [messageBytes m, messageBytes m0])
+    (hne : m ≠ m0) : ∃ e, checkProof H verify env p = .err e := by
+  apply not_accepted_is_error
+  intro pk h
+  exact hne (accepted_fields_are_signed H verify hlen sign pub I env p pk sk0 m0 hsig hw0 m hc hw cfOuter cfInner h).2
+
+/-- **Address differs from what was signed** (workchain or account hash): rejected. -/
+theorem reject_substituted_address (hlen : ∀ x, (H x).length = 32) (sign : List UInt8 → List UInt8 → List UInt8)
+    (pub : List UInt8 → List UInt8) (I : Sig.Ideal sign verify pub) (env : Env) (p : ProofIn)
+    (sk0 : List UInt8) (m0 : Parsed) (hsig : p.signature = some (sign sk0 (createMessage H m0))) (hw0 : ParsedWF m0)
+    (m : Parsed) (hc : convertTonProofMessage p = .ok m) (hw : ParsedWF m)
+    (cfOuter : CollisionFree H [[0xff, 0xff] ++ tonConnectPrefix ++ H (messageBytes m), [0xff, 0xff] ++ tonConnectPrefix ++ H (messageBytes m0)])
+    (cfInner : CollisionFree H [messageBytes m, messageBytes m0])
+    (hne : m.address ≠ m0.address ∨ m.workchain ≠ m0.workchain) : ∃ e, checkProof H verify env p = .err e :=
+  reject_substituted_field H verify hlen sign pub I env p sk0 m0 hsig hw0 m hc hw cfOuter cfInner
+    (fun h => by rcases hne with h1 | h1 <;> exact h1 (by rw [h]))
+
+/-- **Domain differs from what was signed**: rejected (independently of what the domain callback says). -/
+theorem reject_substituted_domain (hlen : ∀ x, (H x).length = 32) (sign : List UInt8 → List UInt8 → List UInt8)
+    (pub : List UInt8 → List UInt8) (I : Sig.Ideal sign verify pub) (env : Env) (p : ProofIn)
+    (sk0 : List UInt8) (m0 : Parsed) (hsig : p.signature = some (sign sk0 (createMessage H m0))) (hw0 : ParsedWF m0)
+    (m : Parsed) (hc : convertTonProofMessage p = .ok m) (hw : ParsedWF m)
+    (cfOuter : CollisionFree H [[0xff, 0xff] ++ tonConnectPrefix ++ H (messageBytes m), [0xff, 0xff] ++ tonConnectPrefix ++ H (messageBytes m0)])
+    (cfInner : CollisionFree H [messageBytes m, messageBytes m0])
+    (hne : p.domain ≠ m0.domain) : ∃ e, checkProof H verify env p = .err e :=
+  reject_substituted_field H verify hlen sign pub I env p sk0 m0 hsig hw0 m hc hw cfOuter cfInner
+    (fun h => hne (by rw [← h, convert_fields p m hc |>.1]))
+
+/-- **Timestamp differs from what was signed**: rejected (a replayed signature cannot be given a fresh timestamp). -/
+theorem reject_substituted_timestamp (hlen : ∀ x, (H x).length = 32) (sign : List UInt8 → List UInt8 → List UInt8)
+    (pub : List UInt8 → List UInt8) (I : Sig.Ideal sign verify pub) (env : Env) (p : ProofIn)
+    (sk0 : List UInt8) (m0 : Parsed) (hsig : p.signature = some (sign sk0 (createMessage H m0))) (hw0 : ParsedWF m0)
+    (m : Parsed) (hc : convertTonProofMessage p = .ok m) (hw : ParsedWF m)
+    (cfOuter : CollisionFree H [[0xff, 0xff] ++ tonConnectPrefix ++ H (messageBytes m), [0xff, 0xff] ++ tonConnectPrefix ++ H (messageBytes m0)])
+    (cfInner : CollisionFree H [messageBytes m, messageBytes m0])
+    (hne : p.ts ≠ m0.ts) : ∃ e, checkProof H verify env p = .err e :=
+  reject_substituted_field H verify hlen sign pub I env p sk0 m0 hsig hw0 m hc hw cfOuter cfInner
+    (fun h => hne (by rw [← h, convert_fields p m hc |>.2.1]))
+
+/-- **Payload differs from what was signed**: rejected (a signature over one server nonce is useless with another). -/
+theorem reject_substituted_payload (hlen : ∀ x, (H x).length = 32) (sign : List UInt8 → List UInt8 → List UInt8)
+    (pub : List UInt8 → List UInt8) (I : Sig.Ideal sign verify pub) (env : Env) (p : ProofIn)
+    (sk0 : List UInt8) (m0 : Parsed) (hsig : p.signature = some (sign sk0 (createMessage H m0))) (hw0 : ParsedWF m0)
+    (m : Parsed) (hc : convertTonProofMessage p = .ok m) (hw : ParsedWF m)
+    (cfOuter : CollisionFree H [[0xff, 0xff] ++ tonConnectPrefix ++ H (messageBytes m), [0xff, 0xff] ++ tonConnectPrefix ++ H (messageBytes m0)])
+    (cfInner : CollisionFree H [messageBytes m, messageBytes m0])
+    (hne : p.payload ≠ m0.payload) : ∃ e, checkProof H verify env p = .err e :=
+  reject_substituted_field H verify hlen sign pub I env p sk0 m0 hsig hw0 m hc hw cfOuter cfInner
+    (fun h => hne (by rw [← h, convert_fields p m hc |>.2.2]))
+
+/-- The state init that hashes to an address holds the OWNER's key: if the account address is the hash of the wallet
+state init of key `pkV` (any known version but highload, any options), then whatever state init `c` (a tree of ordinary
+cells) an attacker supplies, the state-init path of `CheckProof` either fails or yields `pkV` — `c` must hash to the
+address, hence (collision-freedom on the representations of the cells of the two trees) has the same data cell and a
+code with the same hash. -/
+theorem stateinit_for_address_has_owner_key (hlen : ∀ x, (H x).length = 32) (known : List (List UInt8 × Nat)) (v : Version)
+    (hv : v ≠ .highloadV2R2) (code : Cell) (pkV : List UInt8) (hpk : pkV.length = 32) (o : Opts)
+    (hs : List UInt8) (hh : (walletStateInit code v pkV o).hashO? H = .ok hs)
+    (hknown : ∃ kh, known.find? (fun p => p.1 == code.hashO H) = some (kh, v.goIndex))
+    (p : ProofIn) (c : Cell) (hsi : p.stateInit = .roots [c]) (hw : c.wfOrd = true)
+    (cf : CollisionFree H (Cell.reprs H c ++ Cell.reprs H (walletStateInit code v pkV o)))
+    (k : List UInt8) (hk : keyFromStateInit (parseStateInit H known) H hs p = .ok k) : k = pkV := by
+  obtain ⟨kh, hkn⟩ := hknown
+  have hws : (walletStateInit code v pkV o).hashO H = hs := by
+    unfold Cell.hashO? at hh
+    split at hh
+    · simp only [Outcome.ok.injEq] at hh; exact hh
+    · cases hh
+  unfold keyFromStateInit at hk
+  by_cases hemp : p.stateInitEmpty = true
+  · simp [hemp] at hk
+  simp only [hemp, Bool.false_eq_true, ↓reduceIte, hsi] at hk
+  -- the supplied state init hashes to the address
+  have hch : c.depthO ≤ maxDepth ∧ c.hashO H = hs := by
+    unfold compareStateInitWithAddress at hk
+    simp only [bind, Outcome.bind, pure] at hk
+    unfold Cell.hashO? at hk
+    by_cases hd : c.depthO ≤ maxDepth
+    · simp only [hd, ↓reduceIte] at hk
+      by_cases he : (c.hashO H == hs) = true
+      · exact ⟨hd, by simpa using he⟩
+      · simp [he] at hk
+    · simp [hd] at hk
+  obtain ⟨ty, mask, bits, refs⟩ := c
+  simp only [Cell.wfOrd, Bool.and_eq_true, beq_iff_eq, decide_eq_true_eq] at hw
+  obtain ⟨⟨⟨⟨hty, hmask⟩, hb⟩, hr⟩, hl⟩ := hw
+  subst hty hmask
+  have hrep : (Cell.ordinary bits refs).reprO H = (Cell.ordinary [false, false, true, true, false] [code, dataCell v pkV o]).reprO H := by
+    apply cf _ (List.mem_append_left _ (Cell.reprO_mem_reprs H _)) _ (List.mem_append_right _ (Cell.reprO_mem_reprs H _))
+    have := hch.2
+    rw [← hws, Cell.hashO_eq_H_reprO, Cell.hashO_eq_H_reprO] at this
+    exact this
+  obtain ⟨hbits, hn, hhs, _⟩ := Cell.reprO_ordinary_inj H hlen bits _ refs _ hb (by decide) hr (by simp) hrep
+  match refs, hn, hhs, hl, hch, cf, hk with
+  | [c1, d1], _, hhs, hl, hch, cf, hk =>
+    simp only [List.map_cons, List.map_nil, List.cons.injEq, and_true] at hhs
+    simp only [Cell.wfOrdList, Bool.and_eq_true, and_true] at hl
+    obtain ⟨dty, dmask, dbits, drefs⟩ := d1
+    have hl2 := hl.2
+    simp only [Cell.wfOrd, Bool.and_eq_true, beq_iff_eq, decide_eq_true_eq] at hl2
+    obtain ⟨⟨⟨⟨hdty, hdmask⟩, hdb⟩, hdr⟩, _⟩ := hl2
+    subst hdty hdmask
+    have hdrep : (Cell.ordinary dbits drefs).reprO H = (Cell.ordinary (dataBits v pkV o) []).reprO H := by
+      apply cf _ (List.mem_append_left _ ?_) _ (List.mem_append_right _ ?_)
+      · have := hhs.2
+        rw [Cell.hashO_eq_H_reprO, Cell.hashO_eq_H_reprO] at this
+        exact this
+      · exact Cell.reprO_ref_mem H 0 0 _ _ _ (by simp [Cell.ordinary])
+      · exact Cell.reprO_ref_mem H 0 0 _ _ (dataCell v pkV o) (by simp [dataCell, Cell.ordinary])
+    have hdl : (dataBits v pkV o).length ≤ 1023 := by
+      unfold dataBits; rw [dataBitsSeq_length]; split <;> omega
+    obtain ⟨hdbits, hdn, _, _⟩ := Cell.reprO_ordinary_inj H hlen dbits _ drefs _ hdb hdl hdr (by decide) hdrep
+    have hdrefs : drefs = [] := List.eq_nil_of_length_eq_zero (by simpa using hdn)
+    subst hdbits hdrefs hbits
+    -- now the supplied cell is StateInit{c1, data of the owner}
+    have hc1 : c1.ty ≠ tyPruned := by
+      have := hl.1
+      cases c1
+      simp only [Cell.wfOrd, Bool.and_eq_true, beq_iff_eq] at this
+      simp [Cell.ty, this.1.1.1.1, tyPruned]
+    have hc1d : c1.depthO ≤ maxDepth := by
+      have := hch.1
+      have e : Cell.mk 0 0 [false, false, true, true, false] [c1, Cell.mk 0 0 (dataBits v pkV o) []] = stateInitCell c1 (dataCell v pkV o) := rfl
+      rw [e, depthO_stateInit] at this
+      omega
+    have hparse : parseStateInit H known (.roots [Cell.mk 0 0 [false, false, true, true, false] [c1, Cell.mk 0 0 (dataBits v pkV o) []]]) = .ok pkV := by
+      have e : Cell.mk 0 0 [false, false, true, true, false] [c1, Cell.mk 0 0 (dataBits v pkV o) []] = stateInitCell c1 (dataCell v pkV o) := rfl
+      rw [e]
+      unfold parseStateInit
+      simp only []
+      rw [decodeStateInit_stateInitCell c1 (dataCell v pkV o) hc1 (by simp [dataCell, Cell.ordinary, Cell.ty, tyPruned])]
+      simp only [bind, Outcome.bind, Cell.hashO?, hc1d, ↓reduceIte, hhs.1, hkn]
+      exact keyFromData_dataCell v hv pkV hpk o
+    rw [hparse] at hk
+    cases hcmp : compareStateInitWithAddress H hs (.roots [Cell.mk 0 0 [false, false, true, true, false] [c1, Cell.mk 0 0 (dataBits v pkV o) []]]) with
+    | err e => simp [hcmp] at hk
+    | panic x => simp [hcmp] at hk
+    | ok b =>
+      cases b with
+      | false => simp [hcmp] at hk
+      | true => simp only [hcmp, Outcome.ok.injEq] at hk; exact hk.symm
+
+/-- **State init of another key.** The account is the wallet of `pkV` (its address is the hash of that wallet's state
+init); the get-method gives no key; the attacker supplies ANY state init (a tree of ordinary cells) and a signature made
+with a key `skA` whose public key is not `pkV`: `CheckProof` rejects. A state init holding the attacker's key does not
+hash to the victim's address; one that does hash to it holds the victim's key, under which the attacker's signature
+does not verify. -/
+theorem reject_stateinit_of_other_key (hlen : ∀ x, (H x).length = 32) (sign : List UInt8 → List UInt8 → List UInt8)
+    (pub : List UInt8 → List UInt8) (I : Sig.Ideal sign verify pub) (env : Env) (p : ProofIn)
+    (v : Version) (hv : v ≠ .highloadV2R2) (code : Cell) (pkV : List UInt8) (hpk : pkV.length = 32) (o : Opts) (a : Address)
+    (haddr : address H code v pkV o = .ok a)
+    (hknown : ∃ kh, env.known.find? (fun p => p.1 == code.hashO H) = some (kh, v.goIndex))
+    (hget : ∀ k, getWalletPubKey env.getter ≠ .ok k)
+    (hacc : ∀ wc acc, parseAccountID p.address = .ok (wc, acc) → acc = a.hash)
+    (c : Cell) (hsi : p.stateInit = .roots [c]) (hw : c.wfOrd = true)
+    (cf : CollisionFree H (Cell.reprs H c ++ Cell.reprs H (walletStateInit code v pkV o)))
+    (skA d0 : List UInt8) (hd0 : d0.length = 32) (hsig : p.signature = some (sign skA d0)) (hne : pub skA ≠ pkV) :
+    ∃ e, checkProof H verify env p = .err e := by
+  have hh : (walletStateInit code v pkV o).hashO? H = .ok a.hash := by
+    unfold address at haddr
+    cases hx : (walletStateInit code v pkV o).hashO? H with
+    | ok h => simp only [hx, bind, Outcome.bind, pure, Outcome.ok.injEq] at haddr; rw [← haddr]
+    | err e => simp [hx, bind, Outcome.bind] at haddr
+    | panic e => simp [hx, bind, Outcome.bind] at haddr
+  apply reject_foreign_signer H verify hlen sign pub I env p skA d0 hd0 hsig
+  intro wc acc k hpa hk
+  have hacc' := hacc wc acc hpa
+  subst hacc'
+  unfold obtainKey at hk
+  cases hg : getWalletPubKey env.getter with
+  | ok k' => exact absurd hg (hget k')
+  | panic x => exact absurd hg (getWalletPubKey_np _ x)
+  | err e =>
+    simp only [hg] at hk
+    have := stateinit_for_address_has_owner_key H hlen env.known v hv code pkV hpk o a.hash hh hknown p c hsi hw cf k hk
+    rw [this]; exact fun h => hne h.symm
 
 /-! ### the honest proof is accepted -/
 
@@ -482,14 +876,67 @@ example : olderThan (1000 * 1000000000 + 5) 701 300 = false ∧ olderThan (1000 
 example : ({ workchain := 0, address := List.replicate 32 7, domain := [100], ts := 1700000000, payload := [1, 2] } : Parsed).address.length = 32 := by
   decide
 
-/-- non-vacuity of the signature premise of `accept_honest`: a toy scheme with `pub = id`, `sign sk m = sk ++ m`,
-`verify pk m s = (s == pk ++ m)` is correct -/
-example : ∀ sk m : List UInt8, (fun pk m s => s == pk ++ m) (id sk) m ((fun sk m => sk ++ m) sk m) = true := by
-  intro sk m; simp
+/-- non-vacuity of the signature premises (`accept_honest`: correctness; the negative clauses: `Sig.Ideal`): the toy
+scheme of `Lemmas/SigIdeal.lean` — public key = secret key cut / padded to 32 bytes, signature = public key ‖ message cut /
+padded to 32 bytes, verifier recomputes it — is correct, unforgeable and binding, with 64-byte signatures and 32-byte keys -/
+example : Sig.Ideal Sig.toySign Sig.toyVerify Sig.toyPub ∧ (∀ sk m, (Sig.toySign sk m).length = 64) ∧ (∀ sk, (Sig.toyPub sk).length = 32) :=
+  Sig.toy_ideal
+
+/-- the accept-all verifier satisfies the correctness premise of `accept_honest` but is EXCLUDED by the hypotheses of the
+negative clauses -/
+example (sign : List UInt8 → List UInt8 → List UInt8) (pub : List UInt8 → List UInt8) (hsl : ∀ sk m, (sign sk m).length = 64) :
+    (∀ sk m, (fun _ _ _ => true : List UInt8 → List UInt8 → List UInt8 → Bool) (pub sk) m (sign sk m) = true) ∧
+      ¬ Sig.Ideal sign (fun _ _ _ => true) pub :=
+  ⟨fun _ _ => rfl, fun I => Sig.accept_all_violates sign pub hsl I.unforgeable⟩
+
+/-- non-vacuity of the collision-freedom and range premises of the substituted-field clauses: two messages that differ
+in the workchain only, within the Go ranges, and a 32-byte "hash" (`pad32`) that is collision-free on their inner and
+outer byte strings -/
+example :
+    let m0 : Parsed := { workchain := 0, address := List.replicate 32 7, domain := [100], ts := 1700000000, payload := [1, 2] }
+    let m : Parsed := { m0 with workchain := -1 }
+    ParsedWF m0 ∧ ParsedWF m ∧ m ≠ m0 ∧ (∀ x, (Sig.pad32 x).length = 32) ∧
+    CollisionFree Sig.pad32 [messageBytes m, messageBytes m0] ∧
+    CollisionFree Sig.pad32 [[0xff, 0xff] ++ tonConnectPrefix ++ Sig.pad32 (messageBytes m), [0xff, 0xff] ++ tonConnectPrefix ++ Sig.pad32 (messageBytes m0)] := by
+  intro m0 m
+  have cf2 : ∀ a b : List UInt8, Sig.pad32 a ≠ Sig.pad32 b → CollisionFree Sig.pad32 [a, b] := by
+    intro a b hne x hx y hy h
+    simp only [List.mem_cons, List.not_mem_nil, or_false] at hx hy
+    rcases hx with rfl | rfl <;> rcases hy with rfl | rfl
+    · rfl
+    · exact absurd h hne
+    · exact absurd h.symm hne
+    · rfl
+  refine ⟨by unfold ParsedWF; decide, by unfold ParsedWF; decide, by decide, Sig.pad32_length, cf2 _ _ (by decide), cf2 _ _ (by decide)⟩
 
 /-- non-vacuity of the get-method premise: an integer with 32 significant bytes is returned as a 32-byte key -/
 example : ∃ k, getWalletPubKey (.int (256 ^ 31)) = .ok k ∧ k.length = 32 := by
   refine ⟨_, rfl, ?_⟩
   decide
+
+/-! ### the integer fields of the signed message: regenerated Go code against the model -/
+
+/-- tie (X4, regenerated from tonconnect/server.go): the three integer fields of `createMessage`
+(`binary.BigEndian.PutUint32(wc, uint32(message.workChain))`, `binary.LittleEndian.PutUint32(dl, uint32(len(domain)))`,
+`binary.LittleEndian.PutUint64(ts, uint64(message.ts))`, translated to byte shifts on `BitVec` on every run:
+`Gen.TonConnectMsg.createMessageInts`, components `(wc, dl, ts)`) are the `beBytes 4 (u32OfInt wc)`,
+`leBytes 4 (len % 2^32)`, `leBytes 8 (u64OfInt ts)` of the model: `messageBytes m` is the Go concatenation
+`prefix ++ wc ++ address ++ dl ++ domain ++ ts ++ payload` for every `int32` workchain, `int64` timestamp and domain
+of Go-`int` length. -/
+theorem gen_createMessageInts (m : Parsed)
+    (hw : -(2 : Int) ^ 31 ≤ m.workchain ∧ m.workchain < 2 ^ 31) (ht : -(2 : Int) ^ 63 ≤ m.ts ∧ m.ts < 2 ^ 63)
+    (hl : m.domain.length < 2 ^ 63) :
+    messageBytes m =
+      tonProofPrefix
+        ++ (Gen.TonConnectMsg.createMessageInts (BitVec.ofInt 32 m.workchain) (BitVec.ofNat 64 m.domain.length)
+              (BitVec.ofInt 64 m.ts)).1.map UInt8.ofBitVec
+        ++ m.address
+        ++ (Gen.TonConnectMsg.createMessageInts (BitVec.ofInt 32 m.workchain) (BitVec.ofNat 64 m.domain.length)
+              (BitVec.ofInt 64 m.ts)).2.1.map UInt8.ofBitVec
+        ++ m.domain
+        ++ (Gen.TonConnectMsg.createMessageInts (BitVec.ofInt 32 m.workchain) (BitVec.ofNat 64 m.domain.length)
+              (BitVec.ofInt 64 m.ts)).2.2.map UInt8.ofBitVec
+        ++ m.payload :=
+  GenTies.gen_createMessageInts m hw ht hl
 
 end Tongo.C19
